@@ -37,6 +37,9 @@ EXPECTED = {
 
 
 def run(facts, tr, rep):
+    # service-level rules on the shallow view (free helpers, async helpers and glue methods inlined; the circuit's own
+    # methods stay calls and are found by role); clauses about one circuit method use its fully inlined body
+    facts, tr = facts.shallow, tr.shallow
     cb = CB(facts, tr, rep)
     if not cb.ok or cb.transition is None:
         rep.ob("C04.VIEWS", "%s|state-writers" % CRATE, False, "-",
